@@ -85,6 +85,8 @@ pub struct SchedLog {
     pub time_advances: u64,
     /// the asynchronous SIGUSR1 requested by the set-up was actually raised
     pub raised: bool,
+    /// times the harness resumed stopped processes at a stall
+    pub conts: u64,
 }
 
 struct ChooserState {
@@ -158,6 +160,9 @@ pub struct Setup {
     pub stdin_pipe: Option<Vec<Vec<u8>>>,
     /// with `stdin_pipe`: the read end is handed to the shell with O_NONBLOCK set
     pub stdin_nonblock: bool,
+    /// when every process is blocked and some process is stopped, send it SIGCONT (an outside
+    /// party resuming a stopped process, e.g. `kill -CONT` from another terminal)
+    pub cont_on_stall: bool,
     /// raise SIGUSR1 on the shell process right before this scheduler step (only if the process
     /// currently catches it, so that the default action cannot kill the shell)
     pub raise_usr1_at_step: Option<u32>,
@@ -180,6 +185,7 @@ impl Setup {
             remove_files: vec![],
             stdin_pipe: None,
             stdin_nonblock: false,
+            cont_on_stall: false,
             raise_usr1_at_step: None,
         }
     }
@@ -506,6 +512,19 @@ pub fn run(setup: &Setup) -> RunResult {
             if runnable.is_empty() {
                 if done.get() {
                     break;
+                }
+                if setup.cont_on_stall {
+                    let stopped: Vec<yash_env::job::Pid> =
+                        state.borrow().processes.iter().filter(|(_, p)| p.state().is_stopped()).map(|(k, _)| *k).collect();
+                    if !stopped.is_empty() {
+                        use yash_env::system::SendSignal as _;
+                        for pid in stopped {
+                            let sys = VirtualSystem { state: Rc::clone(&state), process_id: yash_env::job::Pid(main_pid) };
+                            drop(sys.kill(pid, Some(yash_env::system::r#virtual::SIGCONT)));
+                        }
+                        log.conts += 1;
+                        continue;
+                    }
                 }
                 let mut st = state.borrow_mut();
                 if let Some(t) = st.scheduled_wakers.next_wake_time() {
